@@ -91,13 +91,25 @@ Not decided: the full §20 numbering algorithm over arbitrary explicit/implicit 
         }
     }
     // ---- dep: identifier-only after explicit numbers that collide with the positional candidate ----
-    let scenarios: Vec<(Vec<i128>, i128, &str)> = vec![
-        (vec![1], 0, "ENUMERATED { a(1), b }: positional candidate 1 is already used"),
-        (vec![0, 2], 0, "ENUMERATED { a, b(2), c }: positional candidate 2 is already used"),
-        (vec![5, 1], 0, "ENUMERATED { a(5), b(1), c }: positional candidate 2 is free"),
-        (vec![], 0, "ENUMERATED { a }"),
-        (vec![0, 1], 0, "ENUMERATED { a, b, c }"),
-    ];
+    // every accumulator of up to 3 distinct numbers from the property's value set {-1,0,1,2,5} (one-step invariant of the
+    // fold: whatever was numbered before, the number given next to an identifier-only item is not among the used ones)
+    let vals = [-1i128, 0, 1, 2, 5];
+    let mut accs: Vec<Vec<i128>> = vec![vec![]];
+    for a in vals {
+        accs.push(vec![a]);
+        for b in vals {
+            if b != a {
+                accs.push(vec![a, b]);
+                for c3 in vals {
+                    if c3 != a && c3 != b {
+                        accs.push(vec![a, b, c3]);
+                    }
+                }
+            }
+        }
+    }
+    let scenario_text: Vec<String> = accs.iter().map(|a| format!("identifier-only item after items numbered {:?}", a)).collect();
+    let scenarios: Vec<(Vec<i128>, i128, &str)> = accs.iter().zip(scenario_text.iter()).map(|(a, t)| (a.clone(), 0i128, t.as_str())).collect();
     let mut positional_everywhere = true;
     let mut collision = None;
     for (acc, start, what) in &scenarios {
